@@ -188,7 +188,7 @@ func (f *faultRuler) RunRules(ctx context.Context, creds *checker.Credentials, a
 var c06Faults = []string{
 	"fetch-error", "checker-deny", "locked-unknown-passphrase", "unlocker-error", "unlocker-false", "isunlocked-error",
 	"rules-FAILED", "rules-UNKNOWN", "rules-DENIED", "rules-short", "ruler-FAILED", "ruler-UNKNOWN", "ruler-DENIED", "ruler-short",
-	"store-fetch-error", "store-store-error", "store-batchstore-error",
+	"store-fetch-error", "store-store-error", "store-batchstore-error", "store-batchstore-panic",
 	"record-v1-length", "record-bad-version", "record-empty",
 	"hash-domain-length", "hash-data-length", "sign-error",
 }
@@ -252,6 +252,11 @@ func newC06Env(run *evid.Run, cfg Cfg, name string) (*c06Env, error) {
 		for _, k := range keys {
 			if ctl.hit(f, k) {
 				return errInjected
+			}
+			if name == "store.BatchStore.pre" && ctl.hit("store-batchstore-panic", k) {
+				// The batch path runs in the goroutine that serves the request (where the server's recovery interceptor
+				// answers a panic with an error); nothing of the batch may come back signed.
+				panic("injected panic at the batch store")
 			}
 		}
 		return nil
@@ -493,7 +498,7 @@ func (e *c06Env) runCase(r *rand.Rand, kind string, n int, via Via, faults map[s
 	// A failed write of the batch fails every entry of the batch.
 	for _, fs := range firedPos {
 		for _, f := range fs {
-			if f == "store-batchstore-error" && kind == "atts" {
+			if (f == "store-batchstore-error" || f == "store-batchstore-panic") && kind == "atts" {
 				for i := range res {
 					if res[i] == core.ResultSucceeded || (i < len(sigs) && len(sigs[i]) > 0) {
 						e.run.Violate(fmt.Sprintf("atts position %d of %d signed although the batch's state write failed", i, n), rec)
@@ -559,6 +564,8 @@ func c06Applies(f, kind string, n int) bool {
 		return kind == "att" || kind == "atts" || kind == "prop"
 	case "hash-data-length":
 		return kind == "generic" || kind == "multi"
+	case "store-batchstore-panic":
+		return kind == "atts" && n >= 2
 	}
 	return true
 }
@@ -648,7 +655,7 @@ func c06Handlers(run *evid.Run, env *Env, r *rand.Rand) {
 // position, then random multi-fault sequences, a closed store, and a store closed under load.
 func C06(cfg Cfg) int {
 	run := evid.New("C06", cfg.Tier, cfg.Seed, "fault_enumeration")
-	run.Rule = "each of 23 single faults (fetcher, checker, locked account, unlocker, IsUnlocked, rules/ruler FAILED|UNKNOWN|DENIED|short list, store Fetch/Store/BatchStore errors via verifhook, three kinds of undecodable record, hashing failures, Sign error) x five request kinds x batch sizes {1,2,5,17} x every position, " +
+	run.Rule = "each of 24 single faults (fetcher, checker, locked account, unlocker, IsUnlocked, rules/ruler FAILED|UNKNOWN|DENIED|short list, store Fetch/Store/BatchStore errors via verifhook, three kinds of undecodable record, hashing failures, Sign error) x five request kinds x batch sizes {1,2,5,17} x every position, " +
 		"at the service boundary and through the handler after a wire round trip; then seeded multi-fault sequences, a handler-only matrix over a stub signer, a closed store, and a store closed under load (child process); distinct = (fault, kind, size, position, boundary) cells in which the fault fired"
 	run.Assume = []string{"faults are injected through exported interfaces and the verif-tagged storage hook; values outside the four defined rule results are not injected"}
 	r := cfg.Rand("c06")
